@@ -4,7 +4,7 @@ func init() {
 	props["C10"] = propSpec{
 		level: "fault_enumeration",
 		rule: "the fault table {absent, ok, error, panic}^4 for Run/Shutdown/Cleanup/ErrorHandler x end mode {Run returns, Close, parent cancel} x {end stimulus after / racing Start} x concurrent Start+Wait(+Close) callers {1,4,16} = 4608 cells: " +
-			"quick runs every 7th cell (offset by the seed), thorough all cells x 60 schedules (GOMAXPROCS 1/2/4/16); plus hook cells (service finishes at the `launched` / `checked` yield points of Start) and start races (400 fresh services per case, 2-6 observers calling Wait from before Start: a Wait that answers anything but ErrServiceNotStarted before the stamp taken ahead of Close returned while Run was running). " +
+			"quick runs every 7th cell (offset by the seed), thorough all cells x 60 schedules (GOMAXPROCS 1/2/4/16); plus hook cells (service finishes at the `launched` / `checked` yield points of Start) and start races (400 fresh services per case, 2-6 observers calling Wait from before Start: a Wait that answers anything but ErrServiceNotStarted before the stamp taken ahead of Close returned while Run was running); the value a failing phase hands back is the error itself, a %w wrapper, the cause taken out of an annotated error with errors.Unwrap (an interior node of the library's aggregate), or a Join. " +
 			"Oracle over a stamped call log: Run <= 1, exactly one nil Start (others AlreadyStarted/Returned), Shutdown once iff set and only after the context ended, Cleanup once after Run and Shutdown ended, ErrorHandler <= 1 after Cleanup with a non-nil argument, " +
 			"every Wait returns after all three ended with errors.Is for every returned error and ErrRecoveredPanic iff a phase panicked, nil otherwise; Running() false after Wait and at quiescence. distinct_nontrivial = distinct cells decided",
 		assumptions:   append([]string{"absent Run (nil function): only ordering and termination are asserted (DESIGN 7e)", "an ErrorHandler panic may or may not be part of Wait's result (Wait's fast path does not wait for the handler)"}, commonAssumptions...),
